@@ -1,0 +1,45 @@
+package storage
+
+import (
+	"testing"
+
+	"github.com/stretchr/testify/assert"
+	db "github.com/tendermint/tm-db"
+)
+
+// A key deleted in the current block or tx session must read as absent before the block is committed.
+func TestState_DeletedKeyReadsAsAbsent(t *testing.T) {
+	for _, withGas := range []bool{false, true} {
+		cs := NewChainState("tombstone", db.NewDB("tombstone", db.MemDBBackend, ""))
+		state := NewState(cs)
+		if withGas {
+			state = state.WithGas(NewGasCalculator(1000000))
+		}
+		key := StoreKey("k")
+		assert.NoError(t, state.Set(key, []byte("v")))
+		state.Commit()
+
+		// deleted in the block cache
+		_, err := state.Delete(key)
+		assert.NoError(t, err)
+		assert.False(t, state.Exists(key))
+		v, err := state.Get(key)
+		assert.NoError(t, err)
+		assert.Empty(t, v)
+
+		// re-created, then deleted in a tx session
+		assert.NoError(t, state.Set(key, []byte("w")))
+		assert.True(t, state.Exists(key))
+		state.BeginTxSession()
+		_, err = state.Delete(key)
+		assert.NoError(t, err)
+		assert.False(t, state.Exists(key))
+		v, err = state.Get(key)
+		assert.NoError(t, err)
+		assert.Empty(t, v)
+		state.DiscardTxSession()
+		assert.True(t, state.Exists(key))
+		v, _ = state.Get(key)
+		assert.Equal(t, []byte("w"), v)
+	}
+}
